@@ -76,7 +76,27 @@ fn run_scenarios(inp: &str, out: &str) -> i32 {
     0
 }
 
+struct StderrLog;
+impl log::Log for StderrLog {
+    fn enabled(&self, _m: &log::Metadata) -> bool {
+        true
+    }
+    fn log(&self, r: &log::Record) {
+        eprintln!("[{}] {}", r.level(), r.args());
+    }
+    fn flush(&self) {}
+}
+static LOGGER: StderrLog = StderrLog;
+
 fn main() {
+    if let Ok(l) = std::env::var("QV_LOG") {
+        let _ = log::set_logger(&LOGGER);
+        log::set_max_level(match l.as_str() {
+            "trace" => log::LevelFilter::Trace,
+            "debug" => log::LevelFilter::Debug,
+            _ => log::LevelFilter::Info,
+        });
+    }
     // library panics are data; keep stderr quiet unless asked
     if std::env::var("QV_PANIC_VERBOSE").is_err() {
         std::panic::set_hook(Box::new(|_| {}));
